@@ -305,7 +305,7 @@ func runDiff(r *harness.Run, c diffCase) error {
 	}
 	same := a.EventID() == b.EventID()
 	switch c.Field {
-	case "unsigned", "signer-key-only":
+	case "unsigned", "signer-key-only", "signatures":
 		if !same {
 			return fmt.Errorf("events differing only in %s have different IDs %s / %s", c.Field, a.EventID(), b.EventID())
 		}
@@ -435,6 +435,7 @@ func run(r *harness.Run) {
 			mk("auth_events", func(q *evalpha.Proto) { q.Auth[0] = strings.Replace(q.Auth[0], "p", "z", 1) })
 			mk("origin_server_ts", func(q *evalpha.Proto) { q.TS++ })
 			mk("unsigned", func(q *evalpha.Proto) { q.Unsigned = `{"age":99}` })
+			mk("signatures", func(q *evalpha.Proto) { q.PreSig = evalpha.PreSig })
 			if p.Redacts != "" {
 				mk("redacts", func(q *evalpha.Proto) {
 					q.Redacts = "$other"
